@@ -211,6 +211,14 @@ def e2e_histories(ctx):
     hs.append([("x.co", ([("a", "1")], "example.com"), None), ("x.co", ([("b", "2")], "EXAMPLE.COM"), None),
                ("example.com", None, None), ("badexample.com", None, "c=9")])
     hs.append([("x.co", ([("a", "1"), ("a1", "2")], "x.co"), None), ("x.co", None, None), ("sub.x.co", None, "c=9")])
+    # a redirect answer is a handshake response too: its cookies are stored and replayed from the very next request on
+    # (5th element: [(host the 302 points to, cookies set BY THE 302)], the last hop gets `resp`)
+    t1, t2, t3 = ([("t", "1")], "x.co"), ([("u", "7")], "y.co"), ([("a", "2"), ("b", "1")], ".x.co")
+    for first, chain in (("x.co", [("sub.x.co", t1)]), ("y.co", [("x.co", t1)]), ("x.co", [("y.co", t2)]),
+                         ("x.co", [("sub.x.co", t1), ("x.co", t3)]), ("badx.co", [("x.co", t2), ("y.co", t1)])):
+        for client in (None, "c=9"):
+            hs.append([(first, rnd.choice([None, t3]), client, None, chain)]
+                      + [(t, None, client) for t in ("x.co", "sub.x.co", "y.co")])
     return hs
 
 
@@ -226,7 +234,9 @@ def run_e2e(ctx, hists=None):
         for step in h:
             target, resp, client = step[:3]
             host_opt = step[3] if len(step) > 3 else None
-            net = N.Net(addrs=["a"], set_cookies=render(resp) if resp else [])
+            chain = step[4] if len(step) > 4 else []
+            net = N.Net(addrs=["a"], set_cookies=render(resp) if resp else [],
+                        redirects=[(f"ws://{h}/", render(r)) for h, r in chain])
             try:
                 with N.patched(net, {}):
                     ws = websocket.WebSocket()
@@ -241,7 +251,19 @@ def run_e2e(ctx, hists=None):
                     hdr = "DUPLICATE " + " | ".join(ck)
             except Exception as e:  # noqa
                 hdr = "EXN " + common.canon_exc(e)
-            obs.append((list(seen), target, client, hdr, host_opt))
+            if chain and not hdr.startswith("EXN"):
+                # one observation per request of the chain: hop k goes to hosts[k], after the responses of the hops before
+                hosts = [target] + [h for h, _ in chain]
+                for k2, rq in enumerate(net.requests[:len(hosts)]):
+                    ck = [l[len("Cookie: "):] for l in rq.decode("latin1").split("\r\n") if l.startswith("Cookie: ")]
+                    h2 = ck[0] if len(ck) == 1 else ("" if not ck else "DUPLICATE " + " | ".join(ck))
+                    obs.append((list(seen), hosts[k2], client, h2, host_opt))
+                    if k2 < len(chain):
+                        seen.append(chain[k2][1])
+                if len(net.requests) != len(hosts):
+                    obs.append((list(seen), hosts[-1], client, f"EXN chain-not-followed({len(net.requests)}/{len(hosts)})", host_opt))
+            else:
+                obs.append((list(seen), target, client, hdr, host_opt))
             if resp:
                 seen.append(resp)
         HS.CookieJar.jar.clear()
@@ -296,6 +318,8 @@ def run_inputs(ctx, inputs):
         elif inp.get("op") == "handshakes":
             seen = [([tuple(p) for p in cs], d) for cs, d in inp["responses_so_far"]]
             h = [("x.co", r, None) for r in seen] + [(inp["target"], None, inp.get("client_cookie"), inp.get("host_option"))]
+            if inp.get("via_redirects"):
+                h = inp["via_redirects"]
             run_e2e(ctx, [h])
 
 
